@@ -260,7 +260,11 @@ def runHs (ws : List String) : String :=
     match g "cam" 0 1, g "sam" 0 1, g "kpm" 0 1, g "first" 0 1, g "cut" 0 4, g "bias" 1 255,
           g "burst" 1 64, g "buf" 0 1048576, g "n" 0 67108864, g "chunk" 1 65536, g "seed" 0 (2^64 - 1) with
     | some _, some _, some _, some _, some cut, some _, some _, some _, some n, some _, some seed =>
-      if cp % 2 == 1 || sp % 2 == 1 then "bad-op" else
+      -- optional `noise=<0..255>`: unrelated failing library calls between the steps; no-op for the session
+      let noiseOk := match kvGet kv "noise" with
+        | none => true
+        | some _ => (natIn kv "noise" 0 255).isSome
+      if cp % 2 == 1 || sp % 2 == 1 || !noiseOk then "bad-op" else
       let scert := (kvGet kv "scert").bind parseCert
       let ccertW := kvGet kv "ccert"
       let ccert : Option (Option CertDesc) := match ccertW with
